@@ -40,6 +40,10 @@ def build_suite(tier, rnd, only=None):
                 ("G", dict(page_size=16384, n=200)), ("H", dict(page_size=32768, n=150)), ("I", dict(page_size=65536, n=150)),
                 ("J", dict(page_size=512, n=2500, extreme=True))]
     suite = []
+    if not only or "Z" in only:
+        path = os.path.join(d, "Z.db")
+        desc = gen.zoo_db(path, 512 if tier == "quick" else 1024, random.Random(rnd.randrange(1 << 30)), n=110 if tier == "quick" else 600)
+        suite.append({"name": "Z", "path": path, "desc": desc, "tdb": btrace.TraceDB(path, "Z"), "kw": {"zoo": True}})
     for name, kw in plan:
         if only and name not in only:
             continue
@@ -105,7 +109,7 @@ def eq_where(terms, key):
     conds, params = [], []
     for (e, coll, desc), v in zip(terms, key):
         if v[0] == "t":
-            conds.append("+%s COLLATE %s IS CAST(? AS TEXT)" % (e, coll))
+            conds.append("+%s COLLATE %s IS +CAST(? AS TEXT)" % (e, coll))   # unary + strips the TEXT affinity of CAST
         else:
             conds.append("+%s COLLATE %s IS ?" % (e, coll))
         params.append(bind(v))
